@@ -370,6 +370,29 @@ def codepoint_sweep(ctx, st, block, single_upto):
                     classify(mk(pl), st, ctx, "codepoint-in-literal")
                 else:
                     classify(mk(body), st, ctx, "codepoint-in-literal")
+    # (c) every code point that ANY notion of "digit" accepts (str.isdigit / isdecimal / isnumeric:
+    # superscripts, circled and Ethiopic digits, fractions ...) in the places where the grammar or
+    # a token action reads a number
+    slots = ["geography'SRID=%s;POINT(1 2)'", "a eq geography'SRID=4326%s;POINT(1 2)'", "geography'srid=%s%s;P'", "duration'P%sD'",
+             "duration'PT1%sS'", "a eq %s", "a eq 1%s", "a eq 1.%s", "a eq 1e%s", "a eq 202%s-01-01", "a eq 2020-01-01T0%s:00:00Z",
+             "a eq 12:3%s:00", "a eq 0000000%s-0000-0000-0000-000000000000", "substring(s, %s) eq 'x'", "a/b%s eq 1", "a in (1, %s)",
+             "a eq 2020-01-01T00:00:00.%sZ", "a eq 2020-01-01T00:00:00+0%s:00"]
+    j = 0
+    for c in range(0x110000):
+        ch = chr(c)
+        if not (ch.isdigit() or ch.isdecimal() or ch.isnumeric()):
+            continue
+        j += 1
+        if not ctx.mine(j):
+            continue
+        for sl in slots:
+            ctx.count("sweep_digit_slots")
+            classify(sl.replace("%s", ch), st, ctx, "numeric-codepoint-in-digit-slot")
+    for k, sl in enumerate(slots):
+        if ctx.mine(k):
+            for n in (4299, 4300, 4301, 5000, 20000):
+                classify(sl.replace("%s", "9" * n), st, ctx, "long-digits-in-digit-slot")
+                classify(sl.replace("%s", "0" * n + "1"), st, ctx, "long-digits-in-digit-slot")
     j = 0
     for c in range(0, single_upto):
         j += 1
